@@ -104,7 +104,7 @@ func RunCheck(cfg *CheckConfig) int {
 		return 2
 	}
 	loadS := time.Since(start).Seconds()
-	timeout := 10
+	timeout := 20
 	if cfg.Tier == "thorough" {
 		timeout = 120
 	}
@@ -236,7 +236,7 @@ func RunCheck(cfg *CheckConfig) int {
 	// solve
 	work := scratchDir(cfg)
 	var wg sync.WaitGroup
-	sem := make(chan struct{}, 16)
+	sem := make(chan struct{}, 8)
 	solveOne := func(r *OblResult, to int, model bool) {
 		defer wg.Done()
 		sem <- struct{}{}
